@@ -10,7 +10,7 @@
     encoding of [pubs_run] on the delivered prefix -- the sequence all the C11 theorems speak about. *)
 From NL Require Import Events.Grammar Events.GrammarProofs Events.Emitter Events.EmitterProofs.
 From NL Require Import Registrars.Model Registrars.Proofs System.Pipeline.
-From NL Require Events.Interp Events.Tie Relay.Tie Registrars.Tie.
+From NL Require Events.Interp Events.Tie Relay.Tie Registrars.Tie PubSub.Interp PubSub.Tie.
 From Coq Require Import String.
 Open Scope Z_scope.
 
@@ -70,4 +70,27 @@ Theorem code_closed_out r ps sched boot ls :
 Proof.
   intros del. split; [apply active_set_closed|].
   apply closed_out_prompt_topics. apply code_delivered_wf_prefix.
+Qed.
+
+(** + broker code (C08's regenerated PubSubItem, [PubSub/Tie.v]): a subscriber of the per-trace prompt topic of a trace whose
+    start got through, attached whenever and scheduled however against the registrars' publications, is told to stop by the
+    ITEM'S CODE after finitely many steps and is never left blocked -- [PI.iouts] is the interpreter of the regenerated
+    method bodies, [ops] any operation history whose publisher side is what the registrars' code sent on that topic *)
+Module PI := NL.PubSub.Interp.
+Module PT := NL.PubSub.Tie.
+
+Theorem code_subscribers_terminate r ps sched boot ls :
+  let del := code_delivered r ps sched boot ls in
+  forall t ops,
+    In t (trace_starts del) ->
+    map forget (filter is_publisher_op ops) = map to_op (on_topic (TPromptInfoFor t) (pubs_run r del)) ->
+    forall s, (s < List.length (PS.i_subs (PS.run false ops)))%nat ->
+    exists n outs,
+      PI.iouts false (ops ++ repeat (PS.Next s) (S n)) = Some outs /\
+      let tail := skipn (List.length ops) outs in
+      last tail PS.OBlocked = PS.OStop /\ ~ In PS.OBlocked tail.
+Proof.
+  intros del t ops Ht Hops s Hs. unfold del in *. rewrite code_delivered_is_model in *.
+  destruct (e2e_subscribers_terminate r ps sched boot ls t ops Ht Hops s Hs) as [n Hn].
+  exists n, (PS.outs false (ops ++ repeat (PS.Next s) (S n))). split; [apply PT.tie_outs | exact Hn].
 Qed.
